@@ -120,14 +120,17 @@ def w_long(job):
 def regen_api():
     """CmGen/Api.lean: Color / ColorPair / make_readable / make_readable_bulk as they read now (the `source_*` theorems of
     CmProps/C17api.lean identify them with the model)"""
-    from translate import api
+    from translate import api, effectsig
     api.generate()
+    effectsig.generate()        # CmGen/EffectSig.lean: every output / file-system call of the core modules (CmProps/C17sig.lean)
 
 
 def check(run):
     run.proof = proof_status("C17", regenerate=regen_api)
     from translate import api as _api
     run.extra["source_translation_api"] = _api.summary()
+    from translate import effectsig as _es
+    run.extra["source_translation_effect_sites"] = _es.summary()
     q = run.quick()
     repo_import()
     from opt_common import pool
